@@ -204,6 +204,10 @@ def with_siblings(ctx: Ctx, v: Var, p=0.25):
     return out
 
 
+def module_level_generic(p):
+    return False
+
+
 def gen_args(ctx: Ctx, kinds, types, nmin=0, nmax=4, first=None):
     rng = ctx.rng
     args = []
@@ -300,6 +304,15 @@ def gen_proc(ctx: Ctx, kinds, types, depth=0, kind=None, self_arg: Var = None, m
         p.body = simple_body(ctx, p, [c.name for c in p.contains if c.kind == "subroutine" and not c.arg_order])
         if kind == "function" and p.result is not None and p.result.ts.base in ("integer", "real") and not p.result.dim:
             p.body.append(f"{p.result.name} = 0")
+    if depth == 0 and not interface_body and not module_level_generic(p) and "elemental" not in p.prefixes and rng.random() < 0.12:
+        # a dummy procedure declared by an interface body, sometimes made OPTIONAL by a separate statement
+        pa = Proc("subroutine", ctx.name("cb"))
+        pa.args = [Var(ctx.name("x"), TypeSpec("integer"), intent=rng.choice([None, "in"]))]
+        pa.arg_order = [pa.args[0].name]
+        if rng.random() < 0.6:
+            pa.dummy_attrs = ["optional"]
+        p.proc_args.append(pa)
+        p.arg_order.insert(rng.randint(0 if not self_arg else 1, len(p.arg_order)), pa.name)
     if p.bind is None and depth == 0 and not self_arg and rng.random() < 0.08 and not p.prefixes:
         p.bind = rng.choice(["", "c_" + p.name.lower(), "C_" + p.name.capitalize()])
     p.doc = ctx.doc()
